@@ -126,9 +126,53 @@ def cmd_run(name, tier="quick", pids=None):
     return results
 
 
+def cmd_rebase(name, new_patch):
+    """store a patch that was re-created by hand on the current HEAD (the original no longer applies after a /repo fix), after re-confirming it"""
+    d = os.path.join(ROOT, "seeded", name)
+    res = confirm(new_patch, os.path.join(d, "demo.py"))
+    print(json.dumps(res)[:600])
+    if not res["confirmed"]:
+        print("NOT CONFIRMED")
+        return 1
+    if not os.path.exists(os.path.join(d, "patch.orig.diff")):
+        shutil.copy(os.path.join(d, "patch.diff"), os.path.join(d, "patch.orig.diff"))
+    shutil.copy(new_patch, os.path.join(d, "patch.diff"))
+    meta = json.load(open(os.path.join(d, "meta.json")))
+    rc, head = sh("git -C /repo rev-parse --short HEAD")
+    meta["rebased"] = "the agent's patch (patch.orig.diff) no longer applies after later fix: commits in /repo; the same change was re-created by hand on %s and re-confirmed" % head.strip()
+    meta["confirmed"] = res
+    json.dump(meta, open(os.path.join(d, "meta.json"), "w"), indent=1)
+    print("rebased", name)
+    return 0
+
+
+def cmd_applies():
+    """which stored patches still apply cleanly to /repo HEAD (in a scratch worktree)"""
+    wt = "/var/tmp/mutwt_applies_%d" % os.getpid()
+    sh("git -C /repo worktree remove --force %s" % wt)
+    rc, out = sh("git -C /repo worktree add -q %s HEAD" % wt)
+    assert rc == 0, out
+    bad = []
+    try:
+        for name in sorted(os.listdir(os.path.join(ROOT, "seeded"))):
+            p = os.path.join(ROOT, "seeded", name, "patch.diff")
+            rc, out = sh("git apply --whitespace=nowarn %s || git apply --3way --whitespace=nowarn %s" % (p, p), cwd=wt)
+            if rc != 0 or "with conflicts" in out:
+                bad.append(name)
+            sh("git reset -q HEAD; git checkout -- .", cwd=wt)
+    finally:
+        sh("git -C /repo worktree remove --force %s" % wt)
+        shutil.rmtree(wt, ignore_errors=True)
+    print("patches that no longer apply:", bad)
+
+
 if __name__ == "__main__":
     if sys.argv[1] == "import":
         cmd_import(sys.argv[2], sys.argv[3])
+    elif sys.argv[1] == "rebase":
+        sys.exit(cmd_rebase(sys.argv[2], sys.argv[3]))
+    elif sys.argv[1] == "applies":
+        cmd_applies()
     else:
         tier = sys.argv[3] if len(sys.argv) > 3 else "quick"
         cmd_run(sys.argv[2], tier, sys.argv[4:] or None)
